@@ -486,7 +486,9 @@ def proofs_verdict(out, proofs, build, prop_file):
     """A broken proof obligation is a violation by itself: with a concrete failing input if the
     run found one, otherwise naming the theorem file that no longer checks."""
     if proofs is not None and not proofs.ok:
-        if not any(v["found_input"] for v in out.violations):
+        # always recorded: concrete inputs that are NOT known findings are preferred for the VIOLATION line (finish sorts
+        # them first), but a broken proof must never be hidden behind violations that all match known findings
+        if True:
             out.violation(f"proof obligations of Properties/{prop_file} no longer check:\n" + proofs.log[-2000:],
                           {"theorems": proofs.theorems, "translator": build.translator},
                           tags={"proof-broken"}, found_input=False)
